@@ -129,7 +129,7 @@ class Probe:
                     if u is not None:
                         result.append(self.index.get((a, u), -1))
         run = {"n": len(c.annotators), "w": int(w), "total": len(pairs), "iters": self.iters, "finished": finished,
-               "result": result, "jobs": [], "_why": why}
+               "result": result, "jobs": [], "est": [], "_why": why}
         self.iters = None
         return al, run
 
@@ -139,7 +139,9 @@ def judge_runs(runs, label="TraceFast"):
     clean = [{k: v for k, v in r.items() if not k.startswith("_")} for r in runs]
     for r in clean:
         r["iters"] = [{k: v for k, v in it.items() if k != "xl"} for it in r["iters"]]
-    path.write_text(json.dumps({"runs": clean}))
+    for r in clean:
+        r.setdefault("est", [])
+    path.write_text(json.dumps({"runs": clean, "log2": [int(round(1000 * math.log2(k))) for k in range(1, 4001)]}))
     res = tlc.run("TraceFast", "SPECIFICATION Spec\nCONSTRAINT Verdicts\n", label=label, env={"TRACE_FILE": str(path)},
                   workers=8, timeout=900, coverage=False)
     path.unlink(missing_ok=True)
@@ -274,6 +276,20 @@ def gamma_jobs(rep, pa, probe, rng, count):
             c = big_continuum(pa, rng)
         else:
             c = align.random_continuum(pa, rng, n_ann, mu, unlabelled=0.0, grid=True, allow_empty=False)
+        if rng.random() < 0.4:
+            # unevenly filled annotators (two dense, others sparse or empty): average and maximum unit counts differ widely
+            from pyannote.core import Segment
+            c = pa.Continuum()
+            dense = rng.randint(10, 16)
+            for a in range(rng.choice([3, 4, 5])):
+                c.add_annotator(f"an{a}")
+                k = dense if a < 2 else rng.choice([0, 0, 1, 2])
+                t = 0
+                for _ in range(k):
+                    t += rng.randint(0, 2)
+                    dur = rng.randint(1, 4)
+                    c.add(f"an{a}", Segment(t, t + dur), rng.choice(align.LABELS))
+                    t += dur
         d = pa.CombinedCategoricalDissimilarity(alpha=rng.choice([1, 3]), beta=1)
         np.random.seed(rng.randint(0, 10 ** 6))
         probe.jobs = []
@@ -283,7 +299,15 @@ def gamma_jobs(rep, pa, probe, rng, count):
             rep.violation("fast.gamma_raises", {"exception": repr(ex), "continuum": align.continuum_summary(c)})
         jobs = probe.jobs
         probe.jobs = None
-        runs.append({"n": n_ann, "w": 1, "total": 0, "iters": [], "finished": 1, "result": [], "jobs": jobs,
+        # the inputs of the documented estimate, through public accessors, and what was decided
+        est = []
+        try:
+            sw = c.get_first_window(d, 1)[0]
+            est = [{"n": int(c.avg_num_annotations_per_annotator), "p": int(c.num_annotators), "s": int(sw.max_num_annotations_per_annotator),
+                    "maxper": int(c.max_num_annotations_per_annotator), "bws": 0 if math.isinf(c.best_window_size) else int(c.best_window_size)}]
+        except Exception:
+            pass
+        runs.append({"n": len(c.annotators), "w": 1, "total": 0, "iters": [], "finished": 1, "result": [], "jobs": jobs, "est": est,
                      "_why": "", "_bws": str(c.best_window_size)})
         rep.case(key=("gamma", json.dumps(jobs)))
     return runs
@@ -306,7 +330,7 @@ def run(tier, rep):
     try:
         runs2, metas2 = l2(rep, pa, probe, model_runs, rng, 500 if quick else 8000)
         runs3, metas3, recs = l3(rep, pa, probe, rng, 150 if quick else 3000)
-        runsg = gamma_jobs(rep, pa, probe, rng, 6 if quick else 60)
+        runsg = gamma_jobs(rep, pa, probe, rng, 10 if quick else 80)
     finally:
         probe.uninstall()
     runs = runs2 + runs3 + runsg
